@@ -24,7 +24,10 @@ pub fn leak_placed(data: &[u8], align_off: usize, fill: u8) -> &'static [u8] {
 }
 
 fn main() {
-    mcore::install_quiet_panic_hook();
+    mcore::run_main(real_main);
+}
+
+fn real_main() {
     let args = Args::parse();
     let mode = args.pos.first().map(|s| s.as_str()).unwrap_or("help").to_string();
     let out = args.str("out", "-");
